@@ -220,11 +220,13 @@ TRead ==
   /\ More /\ Ev.ev = "Read"
   /\ l' = l + 1
   /\ CASE Ev.mode = "plain" ->
-            /\ Chk("C01", "RoundTrip", RoundTrip(Ev))
+            /\ Chk("C01", "ReaderDoesNotPanic", Ev.panic = "")
+            /\ Chk("C01", "ReaderReportsNoError", Ev.panic = "" => (Ev.open = "ok" /\ ~Ev.haserr))
+            /\ Chk("C01", "RowsExact", (Ev.panic = "" /\ Ev.open = "ok" /\ ~Ev.haserr) => RoundTrip(Ev))
             /\ Chk("C06", "ReadBackIsTheWrittenBatches", RoundTrip(Ev))
             /\ Chk("C14", "ExcludedFieldsZero", Ev.exclzero)
        [] Ev.mode = "scanstable" ->
-            /\ Chk("C01", "RoundTrip", RoundTrip(Ev))
+            /\ Chk("C01", "RowsExact", RoundTrip(Ev))
             /\ Chk("C01", "ScannedRecordsStable", Ev.stable)
        [] Ev.mode \in {"chunk", "shortat", "eofdata", "rand"} ->
             Chk("C08", "FragmentationInvariant", RoundTrip(Ev))
